@@ -159,3 +159,39 @@ func VerifC14_CompositeDecodersDoNotPanic() {
 	tp.UnmarshalJSON([]byte(`{"id":29,"linked-profile":3,"start-date":"2023-01-01","end-date":"2023-12-31","weekdays":"Monday,Wednesday","segments":[{"start":"08:30","end":"09:45"}]}`))
 	verifReach("c14.composite")
 }
+
+// ---- DateTime JSON on a day with a zone transition: the zone abbreviation in the text keeps the instant
+// (inside an overlap the same wall-clock time occurs twice)
+
+func c14DateTimeZoned(iana bool) {
+	dg := nondetBytes("date.digits", 8)
+	for i := 0; i < 8; i++ {
+		verifAssume(dg[i] <= 9)
+	}
+	y := int(dg[0])*1000 + int(dg[1])*100 + int(dg[2])*10 + int(dg[3])
+	m := int(dg[4])*10 + int(dg[5])
+	d := int(dg[6])*10 + int(dg[7])
+	verifAssume(y >= 2 && verifValidDate(y, m, d) && !(y == 9999 && m == 12 && d >= 29))
+	if iana {
+		verifZoneTable()
+	}
+	verifZoneAt(y, m, d)
+	base := time.Date(y, time.Month(m), d, 0, 0, 0, 0, time.Local)
+	k := nondetInt("k")
+	verifAssume(k >= 0 && k <= 86400)
+	v := DateTime(base.Add(time.Duration(k) * time.Second))
+	b, err := v.MarshalJSON()
+	verifAssert(err == nil, "DateTime: MarshalJSON succeeds")
+	var w DateTime
+	err = w.UnmarshalJSON(b)
+	verifAssert(err == nil, "DateTime: decoding its own JSON succeeds on a day with a zone transition")
+	if err == nil {
+		a, c := time.Time(v), time.Time(w)
+		verifAssert(c.Equal(a), "DateTime: JSON round trip yields the same instant on a day with a zone transition")
+		verifAssert(c.Hour() == a.Hour() && c.Minute() == a.Minute() && c.Second() == a.Second() && c.Day() == a.Day(), "DateTime: JSON round trip yields the same civil time on a day with a zone transition")
+	}
+	verifReach("c14.datetime.zoned")
+}
+
+func VerifC14_DateTimeJSONZoned()      { c14DateTimeZoned(false) }
+func VerifC14_DateTimeJSONZoned_IANA() { c14DateTimeZoned(true) }
